@@ -543,9 +543,18 @@ func (s *scope) Close() error {
 		// exit, so that the final report below is the last one and sees
 		// everything recorded before Close; only then drop the subscopes.
 		s.wg.Wait()
-		s.reportRegistry()
+		// Report, drop the subscopes, and only then flush: purge takes every
+		// shard's write lock and so waits for a re-acquire report of a closed
+		// subscope that is still in flight; flushing afterwards covers what
+		// that report delivered as well.
+		if s.reporter != nil {
+			s.registry.Report(s.reporter)
+		} else if s.cachedReporter != nil {
+			s.registry.CachedReport()
+		}
 		if s.baseReporter != nil {
 			s.registry.purge()
+			s.baseReporter.Flush()
 		}
 		verifhook.Yield("close.pre-reporter-close")
 		if closer, ok := s.baseReporter.(io.Closer); ok {
